@@ -283,8 +283,75 @@ func usableBlockedSendScenario(kindB string, buf uint, cancelFirst bool) func() 
 	}
 }
 
+// usableOtherNodeStalledScenario: a server-stream correctable call on {1,2} with a context that never ends,
+// while node 2 does not take requests (its server has stopped reading: one message in a handler that never
+// releases, the window full, the sender blocked in its write). The call cannot finish handing over its
+// request, and meanwhile node 1 - reachable, its handler releases and returns - streams k replies. Node 1
+// must stay usable: a probe RPC to it is answered.
+func usableOtherNodeStalledScenario(kind string, k int, buf uint) func() {
+	return func() {
+		w := world.New(world.Opts{N: 2, Window: 1, SendBuffer: buf})
+		if w.Cfg == nil {
+			return
+		}
+		blockers := map[int]bool{}
+		w.Handle = func(h *world.HCtx) world.Reply {
+			if blockers[h.Tok] {
+				world.Block()
+			}
+			if h.Send != nil {
+				h.Release()
+				for i := 0; i < k; i++ {
+					if h.Send(i, 0) != nil {
+						break
+					}
+				}
+			}
+			return world.Reply{}
+		}
+		// node 2: one message in the never-releasing handler, one in the window, one blocked in the write
+		// (and, with a send buffer, as many queued as the buffer holds)
+		for i := 0; i < 3+int(buf); i++ {
+			b := w.NewCall("Unicast")
+			b.Node, b.NoSendWaiting = 2, true
+			b.Ctx = context.Background()
+			blockers[b.Tok] = true
+			w.Start(b)
+			mc.Quiesce()
+		}
+		a := w.NewCall(kind)
+		a.Ctx = context.Background()
+		a.Verdict = func(inv *world.QFInv) { inv.Level = len(a.QF) + 1; inv.Quorum = false }
+		w.Start(a)
+		mc.Quiesce()
+		probe := w.NewCall("GRPCCall")
+		probe.Node = 1
+		w.Start(probe)
+		mc.Quiesce()
+		name := fmt.Sprintf("usable/other-node-stalled/%s/k=%d/buf=%d", kind, k, buf)
+		key := kind + " other-node-stalled"
+		switch {
+		case !probe.Returned:
+			fail("C09/probe-stuck", key+" lock-waiters="+world.LockWaiters(), "%s: node 1 is reachable and its handlers release and return, but a new RPC to it gets no answer while a stream call is still handing its request to node 2, which does not read (entered=%d; blocked library threads: %v)", name, w.Entered(1, probe.Tok), world.LibThreads())
+			mc.Outcome("probe-stuck")
+		case probe.Err != nil:
+			fail("C09/probe-failed", key, "%s: a new RPC to node 1 fails: %v", name, probe.Err)
+			mc.Outcome("probe-failed")
+		default:
+			mc.Outcome("probe-ok")
+		}
+	}
+}
+
 func usableInstances(tier string) []Instance {
 	var out []Instance
+	for _, kind := range []string{"CorrectableStream", "CorrectableStreamPerNodeArg", "CorrectableStreamCustomReturnType"} {
+		for _, k := range []int{1, 3, 4} {
+			for _, buf := range []uint{0, 1} {
+				out = append(out, Instance{Name: fmt.Sprintf("usable/other-node-stalled/%s/k=%d/buf=%d", kind, k, buf), Bound: 1, Root: usableOtherNodeStalledScenario(kind, k, buf)})
+			}
+		}
+	}
 	for _, kb := range []string{"GRPCCall", "QuorumCall", "Unicast"} {
 		for _, buf := range []uint{0, 1} {
 			for _, cf := range []bool{true, false} {
